@@ -1,3 +1,4 @@
+import math
 import warnings
 
 import numpy as np
@@ -236,8 +237,8 @@ class LogicDense(torch.nn.Module):
         return x
 
     def _check_gumbel_temperature(self):
-        if not self.temperature > 0:
-            raise ValueError("Temperature must be positive")
+        if not 0 < self.temperature < math.inf:
+            raise ValueError("Temperature must be positive and finite")
 
     def forward_cuda(self, x):
         if self.training:
